@@ -22,7 +22,7 @@ for d in seeded/*; do
   if [ $# -gt 0 ] && [[ ! " $* " =~ " $pid " ]]; then continue; fi
   case $k in r*) kind=refactoring;; *) kind=breaking;; esac
   run $pid $(basename $d) $kind /verif/$d/patch.diff &
-  while [ $(jobs -r | wc -l) -ge 12 ]; do sleep 0.1; done
+  while [ $(jobs -r | wc -l) -ge ${JOBS:-12} ]; do sleep 0.1; done
 done
 wait
 python3 - "$@" <<'PY' | while read pid commit; do git -C /repo show --format= $commit -- pycoin > /tmp/vs-revert-$commit.diff; run $pid "$pid-revert-$commit" breaking /tmp/vs-revert-$commit.diff R; rm -f /tmp/vs-revert-$commit.diff; done
